@@ -1,6 +1,6 @@
 (* Extract/Codec.v — S-expression encoders / decoders for the model types (Appendix B of DESIGN) *)
 From Coq Require Import List Bool Ascii String ZArith.
-From FM Require Import Base.Result Base.Str Base.Sexp Base.AstOp Model.Ast Model.FM.
+From FM Require Import Base.Result Base.Str Base.Sexp Base.AstOp Model.Ast Model.FM Model.PFM Format.Xml.
 Import ListNotations.
 Open Scope string_scope.
 
@@ -182,6 +182,53 @@ Definition d_fm (s : sexp) : option fm :=
       match d_feature f, omap d_ctc cs with
       | Some f', Some cs' => Some {| root := f'; ctcs := cs' |}
       | _, _ => None
+      end
+  | _ => None
+  end.
+
+(* ---- pointer-annotated models ---- *)
+Definition e_ptr (p : ptr) : sexp :=
+  match p with
+  | PNone => SAtom "nil"
+  | PExt => SAtom "ext"
+  | PPath l => e_tag "p" (flat_map (fun ij => [e_nat (fst ij); e_nat (snd ij)]) l)
+  end.
+
+Fixpoint e_pfeature (f : pfeature) : sexp :=
+  match f with
+  | PFeature i p ap rs =>
+      e_tag "pf" [SStr (f_name i); e_aval (f_abstract i); e_ftype (f_type i); e_z (f_cmin i);
+                  e_z (f_cmax i); e_ptr p;
+                  SList (map (fun ap_ => SList [e_attr (fst ap_); e_ptr (snd ap_)])
+                             (combine (f_attrs i) ap));
+                  SList (map (fun r => match r with
+                                       | PRelation rp a b cs =>
+                                           e_tag "pr" [e_ptr rp; e_z a; e_z b; SList (map e_pfeature cs)]
+                                       end) rs)]
+  end.
+
+Definition e_pfm (m : pfm) : sexp :=
+  e_tag "pfm" [e_pfeature (proot m); SList (map e_ctc (pctcs m))].
+
+(* ---- xml ---- *)
+Fixpoint e_xml (x : xml) : sexp :=
+  match x with
+  | Elem t a txt kids =>
+      e_tag "x" [SStr t; SList (map (fun kv => SList [SStr (fst kv); SStr (snd kv)]) a);
+                 e_opt SStr txt; SList (map e_xml kids)]
+  end.
+
+Fixpoint d_xml (s : sexp) : option xml :=
+  match s with
+  | SList [SAtom _; SStr t; SList a; txt; SList kids] =>
+      match omap (fun kv => match kv with
+                            | SList [SStr k; SStr v] => Some (k, v)
+                            | _ => None
+                            end) a,
+            (if is_nil txt then Some None else option_map Some (d_str txt)),
+            omap d_xml kids with
+      | Some a', Some txt', Some kids' => Some (Elem t a' txt' kids')
+      | _, _, _ => None
       end
   | _ => None
   end.
